@@ -7,6 +7,7 @@ and the registered callables.  Schedules are explored systematically with a pree
 """
 import itertools
 import json
+import os
 import logging
 import random
 import sys
@@ -183,6 +184,7 @@ class Run(object):
         S = self.S
         S.yield_(("call", h))
         S.emit("call", h=h)
+        idok = 0                        # 1: the reply carries this request's own id, -1: another one, 0: not applicable
         try:
             out = self.d._marshaled_dispatch(self.body(h), self.custom if self.dks[h - 1] == "custom" else None)
             if out == "":
@@ -190,11 +192,14 @@ class Run(object):
             else:
                 r = json.loads(out)
                 form = "2" if isinstance(r, dict) and "jsonrpc" in r else "1" if isinstance(r, dict) else "bad"
+                k = self.kinds[h - 1]
+                if isinstance(r, dict) and k["valid"] and not k["notif"] and not k.get("bean"):
+                    idok = 1 if (type(r.get("id")) is int and r.get("id") == h) else -1
         except BaseException as e:  # noqa
-            form = "raised:" + type(e).__name__
+            form = "raised"
         S.yield_(("ret", h))
         self.replies[h] = form
-        S.emit("ret", h=h, val=form)
+        S.emit("ret", h=h, val=form, obj=idok)
 
     def start(self):
         for h in range(1, len(self.kinds) + 1):
@@ -212,10 +217,19 @@ class Run(object):
         return r
 
 
+STUCK = [0]
+
+
+class StuckAbort(Exception):
+    pass
+
+
 def run_plan(sv, kinds, nworkers, plan, rnd=None, policy="low", dks=None):
     """plan: dict step index -> thread idx to switch to (a preemption); a negative idx fires the idle time-out of that
     (blocked) thread.  Default policy: keep running the current thread while it is enabled, else the enabled thread with
     the lowest ("low") or highest ("high": pool workers first) id.  rnd: random schedule instead."""
+    if STUCK[0]:
+        raise StuckAbort()
     R = Run(sv, kinds, nworkers, dks)
     R.start()
     S = R.S
@@ -253,6 +267,12 @@ def run_plan(sv, kinds, nworkers, plan, rnd=None, policy="low", dks=None):
             cur = t
         S.step(t, tmo)
         step += 1
+        if S.stuck:
+            # a handler thread is blocked in something the scheduler does not control (a real lock taken inside the
+            # library): it cannot be stopped - this execution ends here as a deadlock, and so does the exploration
+            STUCK[0] += 1
+            end = "deadlock"
+            break
         if step > 3000:
             end = "truncated"
             break
@@ -302,7 +322,7 @@ def explore(sv, kinds, nworkers, bound, maxruns, rnd, policy="low", dks=None):
     for depth in range(bound + 1):
         nxt = []
         for plan in frontier:
-            if len(out) >= maxruns:
+            if len(out) >= maxruns or STUCK[0]:
                 break
             tr, choices = run_plan(sv, kinds, nworkers, plan, policy=policy, dks=dks)
             key = "|".join("%s:%s:%s" % (e["thr"], e["k"], e["obj"]) for e in tr["ev"] if e["k"] != "pool")
@@ -348,34 +368,42 @@ if __name__ == "__main__":
     # always: pairs of notifications (and notification + call) handed to a pool of one / two workers, both baselines
     N = [k for k in K if k["valid"] and k["notif"]]
     Cc = [k for k in K if k["valid"] and not k["notif"]]
-    always = [("2", [a, b], nw) for a in N for b in N + Cc[:1] for nw in (1, 2)]
-    for (sv, kinds, nw) in always[part::nparts]:
-        traces += explore(sv, kinds, nw, bound, maxruns, rnd, policy="high", dks=["custom", "custom"])
-        traces += explore(sv, kinds, nw, bound, maxruns, rnd, policy="low")
-    for (sv, kinds, nw) in combos[:budget][part::nparts]:
-        traces += explore(sv, kinds, nw, bound, maxruns, rnd, dks=[rnd.choice(["default", "custom"]) for _ in kinds])
-        if nw:
-            traces += explore(sv, kinds, 1 if rnd.random() < 0.5 else nw, bound, maxruns, rnd, policy="high")
-        for _ in range(3):
-            tr, _c = run_plan(sv, kinds, nw, {}, rnd=rnd)
+    late_traces = []
+    try:
+        always = [("2", [a, b], nw) for a in N for b in N + Cc[:1] for nw in (1, 2)]
+        for (sv, kinds, nw) in always[part::nparts]:
+            traces += explore(sv, kinds, nw, bound, maxruns, rnd, policy="high", dks=["custom", "custom"])
+            traces += explore(sv, kinds, nw, bound, maxruns, rnd, policy="low")
+        for (sv, kinds, nw) in combos[:budget][part::nparts]:
+            traces += explore(sv, kinds, nw, bound, maxruns, rnd, dks=[rnd.choice(["default", "custom"]) for _ in kinds])
+            if nw:
+                traces += explore(sv, kinds, 1 if rnd.random() < 0.5 else nw, bound, maxruns, rnd, policy="high")
+            for _ in range(3):
+                tr, _c = run_plan(sv, kinds, nw, {}, rnd=rnd)
+                traces.append(tr)
+        # notification pools started late (with a backlog larger / smaller than the pool), then further notifications
+        late = [(nb, mw, dk) for nb in (1, 3, 5) for mw in (1, 2) for dk in ("default", "custom")]
+        late_traces = [run_late("2", nb, mw, dk, 2, rnd) for (nb, mw, dk) in late[part::nparts]]
+        # requests whose id is a bean: the reply cannot be converted to JSON and the fall-back error is sent - in the form of
+        # ITS request, whatever another thread is serving meanwhile (conformance instance has no such path: DConcObs only)
+        bean = {"jr": True, "notif": False, "valid": True, "bean": True}
+        bean1 = {"jr": False, "notif": False, "valid": True, "bean": True}
+        others = [{"jr": False, "notif": False, "valid": True}, {"jr": True, "notif": False, "valid": True}, {"jr": False, "notif": True, "valid": True}]
+        pairs = [("2", [b, o]) for b in (bean, bean1) for o in others] + [("2", [o, b]) for b in (bean, bean1) for o in others] + [("1", [bean, others[0]])]
+        for (sv, kinds) in pairs[part::nparts]:
+            late_traces += explore(sv, kinds, 0, bound, maxruns, rnd)
+            late_traces += explore(sv, kinds, 0, bound, maxruns, rnd, policy="high")
+
+        # three handlers, random schedules
+        for _ in range(20 if tier == "quick" else 300):
+            kinds = [rnd.choice(K) for _ in range(3)]
+            tr, _c = run_plan(rnd.choice("12"), kinds, rnd.choice([0, 1, 2]), {}, rnd=rnd, dks=[rnd.choice(["default", "custom"]) for _ in kinds])
             traces.append(tr)
-    # notification pools started late (with a backlog larger / smaller than the pool), then further notifications
-    late = [(nb, mw, dk) for nb in (1, 3, 5) for mw in (1, 2) for dk in ("default", "custom")]
-    late_traces = [run_late("2", nb, mw, dk, 2, rnd) for (nb, mw, dk) in late[part::nparts]]
-    # requests whose id is a bean: the reply cannot be converted to JSON and the fall-back error is sent - in the form of
-    # ITS request, whatever another thread is serving meanwhile (conformance instance has no such path: DConcObs only)
-    bean = {"jr": True, "notif": False, "valid": True, "bean": True}
-    bean1 = {"jr": False, "notif": False, "valid": True, "bean": True}
-    others = [{"jr": False, "notif": False, "valid": True}, {"jr": True, "notif": False, "valid": True}, {"jr": False, "notif": True, "valid": True}]
-    pairs = [("2", [b, o]) for b in (bean, bean1) for o in others] + [("2", [o, b]) for b in (bean, bean1) for o in others] + [("1", [bean, others[0]])]
-    for (sv, kinds) in pairs[part::nparts]:
-        late_traces += explore(sv, kinds, 0, bound, maxruns, rnd)
-        late_traces += explore(sv, kinds, 0, bound, maxruns, rnd, policy="high")
-    json.dump(late_traces, open(out + ".late", "w"))      # more handlers than the conformance instance has: judged by DConcObs only
-    # three handlers, random schedules
-    for _ in range(20 if tier == "quick" else 300):
-        kinds = [rnd.choice(K) for _ in range(3)]
-        tr, _c = run_plan(rnd.choice("12"), kinds, rnd.choice([0, 1, 2]), {}, rnd=rnd, dks=[rnd.choice(["default", "custom"]) for _ in kinds])
-        traces.append(tr)
+    except StuckAbort:
+        pass
+    json.dump(late_traces, open(out + ".late", "w"))
     json.dump(traces, open(out, "w"))
     print(json.dumps({"traces": len(traces), "events": sum(len(t["ev"]) for t in traces), "wall": round(time.time() - t0, 1)}))
+    if STUCK[0]:
+        sys.stdout.flush()
+        os._exit(0)                      # a blocked thread cannot be joined
